@@ -6,7 +6,7 @@ pub mod async_std {
         use crate::spec::*;
         use crate::shims::std::io;
         use crate::shims::std::path::PathArg;
-        pub use crate::shims::std::fs::{File, read, copy, remove_file, remove_dir, create_dir_all, DirBuilder, metadata, remove_dir_all};
+        pub use crate::shims::std::fs::{File, read, read_to_string, copy, remove_file, remove_dir, create_dir_all, DirBuilder, metadata, remove_dir_all};
         use crate::shims::std::fs::{OpenMode, file_buffered, file_pending};
         /// the runtime's OpenOptions: as std's, but the handle it opens BUFFERS writes in user
         /// space until `flush` (see `file_buffered` in shims/std_fs.rs)
@@ -136,7 +136,7 @@ pub mod futures {
 // @FLAVOUR tokio
 pub mod tokio {
     pub mod fs {
-        pub use crate::shims::std::fs::{File, read, copy, remove_file, remove_dir, create_dir_all, DirBuilder, metadata, remove_dir_all};
+        pub use crate::shims::std::fs::{File, read, read_to_string, copy, remove_file, remove_dir, create_dir_all, DirBuilder, metadata, remove_dir_all};
         pub use crate::shims::async_std::fs::OpenOptions;
     }
     pub mod io {
